@@ -225,7 +225,7 @@ PROPS["C11"] = {
     "engines": [
         {"bin": "hv", "args": ["c11"]},
     ],
-    "min": {"quick": {"scripts": 1500, "handshakes_ok": 1200, "server_frames_validated": 1500, "messages_delivered": 2000, "pings_answered_by_matching_pong": 300, "close_frames_received": 500, "blocking_vs_nonblocking_compared": 600, "handshakes_refused_without_key": 50, "handshake_key_lengths_swept": 257},
+    "min": {"quick": {"scripts": 1500, "handshakes_ok": 1200, "server_frames_validated": 1500, "messages_delivered": 2000, "pings_answered_by_matching_pong": 300, "close_frames_received": 500, "blocking_vs_nonblocking_compared": 600, "handshakes_refused_without_key": 50, "handshake_key_lengths_swept": 257, "echo_sizes_swept": 280},
             "thorough": {"scripts": 25_000}},
     "assumptions": [],
     "level_text": "A reference RFC 6455 client plays generated frame scripts against a real App with websocket_handler under three deliveries and both receive modes; every byte the server writes after the 101 must pass a strict frame validator and equal the expected reply sequence (Pong per Ping, echo, Close), and the handler-side log of delivered messages and errors is compared with what the script denotes.",
